@@ -19,15 +19,35 @@ import random
 
 import heap_common as H
 import heap_shapes as HS
+import mutate_value_tie as MT
+import protect_tie as PT
 
 PID = "C01"
-LEAN_TARGETS = ["SpecVerif.Props.C01"]
-AUDIT = [("SpecVerif.Props.C01", "SpecVerif.Props.C01")]
+LEAN_TARGETS = ["SpecVerif.Props.C01", "SpecVerif.Props.Protect", "SpecVerif.Props.MutateValue"]
+AUDIT = [
+    ("SpecVerif.Props.C01", "SpecVerif.Props.C01"),
+    ("SpecVerif.Props.Protect", "SpecVerif.Props.Protect"),
+    ("SpecVerif.Props.MutateValue", "SpecVerif.Props.MutateValue"),
+]
 DRIVER = "Drivers/Heap.lean"
 REQUIRED_THEOREMS = [
     "SpecVerif.Props.C01.cow_frame",
     "SpecVerif.Props.C01.cow_writes_fresh",
     "SpecVerif.Props.C01.deepcopy_fresh",
+    # `protect_via_deepcopy` over every kind of value (Model/Protect.lean): whether it returns or raises is a function of
+    # the value alone; no record of earlier (failed) calls
+    "SpecVerif.Props.Protect.protect_fails_iff",
+    "SpecVerif.Props.Protect.protect_ok_iff",
+    "SpecVerif.Props.Protect.protect_history_free",
+    "SpecVerif.Props.Protect.protect_mutable_new",
+    "SpecVerif.Props.Protect.protect_same_content",
+    # which object `mutate_value` edits, for every combination of arguments and hook behaviours (Model/MutateValue.lean)
+    "SpecVerif.Props.MutateValue.cow_never_edits_receiver_or_argument",
+    "SpecVerif.Props.MutateValue.cow_never_edits_prepared",
+    "SpecVerif.Props.MutateValue.cow_edits_only_fresh_Full",
+    "SpecVerif.Props.MutateValue.cow_never_edits_transformed",
+    "SpecVerif.Props.MutateValue.cow_edits_only_fresh_partial",
+    "SpecVerif.Props.MutateValue.frozen_inplace_edits_nothing",
 ]
 RULE = (
     "case = class table (nested class, main class with 3-7 attributes over int/str/List[int]/Dict[str,int]/Set[int]/"
@@ -39,18 +59,30 @@ RULE = (
     "distinct = distinct (table, pre-world, line) triples. extra = crash-point sweep: LineBoom injected at executed "
     "lines of spec_classes/* and generated wrappers inside copy-on-write helper calls (quick: the first and last "
     "visit of every distinct source line the call executes + 20 random line events; thorough: every line event). "
-    "extra (2) = class families outside the heap grammar (harness/heap_shapes.py; real code + snapshot oracle): 17 value "
-    "kinds (KeyedList/KeyedSet of scalars and of keyed spec items, tuples of scalars / of lists / of spec instances, "
-    "containers of containers, Dict/List of spec items, nested plain and frozen spec instances) x storage (plain with "
-    "four kinds of default, attribute-level do_not_copy, invalidated attribute, Alias with local override / passthrough "
-    "/ fallback, overridable and cached spec_property, property with setter, unmanaged entries) x class shape (eager, "
-    "lazy, spec subclass, plain subclass) x invalidation (none, by name, wildcard property, wildcard attribute, wildcard "
-    "only) x receiver state (size 0-3, entries materialised by constructor / assignment / helper, caches filled or "
-    "empty, generation 0-3, aliasing inside the instance, held as attribute / list member / dict value of an outer "
-    "instance) x every copy-on-write route with valid and with failing arguments (295 self routes, 23 outer routes); "
-    "quick: every 6th scenario of the systematic part (offset by seed) + 300 random, in seeded random order, the "
-    "second half after a fixed prelude of earlier calls (one value of every shape pushed through the library: "
-    "module-level caches), 6 calls cut at library lines; thorough: all + 8000 random, 200 cut."
+    "extra (2) = class families outside the heap grammar (harness/heap_shapes.py; real code + snapshot oracle): 33 value "
+    "kinds (KeyedList/KeyedSet of scalars and of keyed spec items, tuples of scalars / of lists / of dicts / of tuples / "
+    "of spec instances, a str-list pair, named tuples, frozensets of plain objects, plain objects, bytearrays, containers "
+    "of containers and of tuples, Dict/List of spec items, nested plain and frozen spec instances, Any-typed values and "
+    "List/Dict/Set/Tuple of Any) x storage (plain with four kinds of default, attribute-level do_not_copy, invalidated "
+    "attribute, Alias with local override / passthrough / fallback, overridable and cached spec_property, property with "
+    "setter, unmanaged entries) x class shape (eager, lazy, spec subclass, plain subclass) x invalidation (none, by name, "
+    "wildcard property, wildcard attribute, wildcard only) x preparer hooks (`_prepare_<attr>` / `_prepare_<item>` that "
+    "hand out registered PRE-EXISTING objects, or raise) x receiver state (size 0-3, entries materialised by constructor "
+    "/ assignment / helper, caches filled or empty, generation 0-3, aliasing inside the instance, `vals` without a value, "
+    "an UNCOPYABLE member -- lock / generator / object whose __deepcopy__ raises -- as an undeclared entry or inside an "
+    "Any-typed value, held as attribute / list member / dict value of an outer instance) x every copy-on-write route "
+    "with valid and with failing arguments (331 self routes, 38 outer routes; incl. helpers handed a registry key with "
+    "and without keyword edits, transforms returning a registered object); quick: every 8th scenario of the systematic "
+    "part (offset by seed) + 280 random, in seeded random order, the second half after a fixed prelude of earlier calls "
+    "(one value of every shape pushed through the library, then one FAILED call of every kind: uncopyable members in "
+    "every container shape, raising hooks / transforms, ill-typed values), 6 calls cut at library lines; thorough: all + "
+    "8000 random, 200 cut.  The second half of the heap-grammar histories runs after the same prelude.  extra (3) = "
+    "protect tie (harness/protect_tie.py): histories of `protect_via_deepcopy` calls on values built from terms (every "
+    "container kind around every kind of member, chains of three, aliasing / cycles, failing calls between successful "
+    "ones; 120 random histories quick / 4000 thorough) compared line by line with SpecVerif.Protect through "
+    "Drivers/Protect.lean.  extra (4) = mutate_value tie (harness/mutate_value_tie.py): all 9600 combinations of the "
+    "arguments of `mutate_value` with abstract hooks (ident / fresh / pre-existing / raising) compared with "
+    "SpecVerif.MutateValue through Drivers/MutateValue.lean (which object is edited)."
 )
 ASSUMPTIONS = [
     "user callbacks (transforms, preparers, item preparers, __post_copy__) are pure: they return new objects or their "
@@ -64,6 +96,10 @@ ASSUMPTIONS = [
     "class families of extra (2): a helper may READ the receiver; filling the cache of a cached spec_property of the "
     "receiver (an additional `__dict__` entry named like the property) is not counted as a change of the receiver; "
     "every other entry, keyed-container storage object and tuple must be the same object with the same content",
+    "class families with preparer hooks: what a hook of the class hands to the library is a value handed in on the "
+    "caller's behalf -- the registered objects are roots of the snapshot like the arguments",
+    "protect tie: every object of a term occurs as a node once, later occurrences are back-references; sets / frozensets "
+    "hold at most one member that is not an atom; no cycles through tuples",
 ]
 OPEN_STATEMENTS = []
 EXHAUSTIVE = {"quick": False, "thorough": False}
@@ -96,30 +132,55 @@ def gen_cases(tier, rng):
         k = 0
         while True:
             k += 1
-            # every 5th case of the search stream is a scenario of the class families outside the heap grammar
+            # every 5th case of the search stream is a scenario of the class families outside the heap grammar, every 7th
+            # a history of `protect_via_deepcopy` calls (harness/protect_tie.py; judged by its oracle)
+            if k % 7 == 0:
+                yield PT.random_case(rng)
+                continue
             yield HS.random_case(PID, rng) if k % 5 == 0 else H.gen_case(rng, PROFILE)
     n = 260 if tier == "quick" else 6000
-    for _ in range(n):
-        yield H.gen_case(rng, PROFILE)
+    for i in range(n):
+        case = H.gen_case(rng, PROFILE)
+        if i >= n // 2:
+            # the second half of the histories runs after the prelude of earlier -- also FAILED -- calls in this process
+            # (heap_shapes.run_prelude): the model has no process-level state, the code must not have any either
+            case["prelude"] = True
+        yield case
+
+
+def _special(case):
+    """Cases of the `extra` sections (replayable through `oracle`), not histories of the heap grammar."""
+    return HS.is_case(case) or "protect_tie" in case or "mutate_value_tie" in case
 
 
 def model_lines(case):
-    return [] if HS.is_case(case) else H.model_lines(case)
+    return [] if _special(case) else H.model_lines(case)
 
 
 def real_lines(case):
-    return [] if HS.is_case(case) else H.real_lines(case)
+    if _special(case):
+        return []
+    HS.ensure_prelude(case)
+    return H.real_lines(case)
 
 
 def shrink(case, at=None):
-    return [] if HS.is_case(case) else H.shrink_case(case, at)
+    return [] if _special(case) else H.shrink_case(case, at)
 
 
 def nontrivial(case, real):
+    if "protect_tie" in case:
+        return [("protect_tie", H.dumps(case["protect_tie"]))]
+    if "mutate_value_tie" in case:
+        return [("mutate_value_tie", H.dumps(case["mutate_value_tie"]))]
     return [("shapes", H.dumps(case["sc"]))] if HS.is_case(case) else H.nontrivial_keys(case, real)
 
 
 def tags(case, real):
+    if "protect_tie" in case:
+        return ["protect_tie"]
+    if "mutate_value_tie" in case:
+        return ["mutate_value_tie"]
     return ["shapes:" + HS.route_kind(case["sc"]["route"])] if HS.is_case(case) else H.op_tags(case, real)
 
 
@@ -153,6 +214,11 @@ def _diff(before, after):
 def oracle(case):
     if HS.is_case(case):  # a scenario of the class families outside the heap grammar (harness/heap_shapes.py)
         return HS.judge_case(case)
+    if "protect_tie" in case:  # a history of `protect_via_deepcopy` calls (harness/protect_tie.py)
+        return PT.oracle(case["protect_tie"])
+    if "mutate_value_tie" in case:  # one point of the `mutate_value` tie (harness/mutate_value_tie.py)
+        return MT.oracle(case["mutate_value_tie"])
+    HS.ensure_prelude(case)
     violations = []
     ops = case["ops"]
     line_fault = case.get("line_fault")
@@ -200,7 +266,47 @@ def oracle(case):
 
 
 def extra(tier, rng):
-    return HS.merge_extra(_extra_crash_points(tier, rng), HS.extra_section(PID, tier, rng))
+    return HS.merge_extra(
+        _extra_crash_points(tier, rng), HS.extra_section(PID, tier, rng), _extra_protect_tie(tier, rng), _extra_mutate_value_tie(tier, rng)
+    )
+
+
+def _extra_mutate_value_tie(tier, rng):
+    """Real `mutate_value` vs `SpecVerif.MutateValue.mutateValue` through Drivers/MutateValue.lean (harness/mutate_value_tie.py):
+    which object is edited, for every combination of arguments and hook behaviours (exhaustive)."""
+    import common
+
+    r = MT.run(tier, rng, common.run_driver)
+    return {
+        "evaluations": r["lines"],
+        "nontrivial": r["keys"],
+        "violations": r["violations"][:20],
+        "disagreements": r["disagreements"][:20],
+        "info": {
+            "mutate_value_tie_points": r["lines"],
+            "mutate_value_tie_disagreeing_points": len(r["disagreements"]),
+            "mutate_value_tie_histogram": dict(sorted(r["tags"].items())),
+        },
+    }
+
+
+def _extra_protect_tie(tier, rng):
+    """Real `protect_via_deepcopy` vs `SpecVerif.Protect.protect` through Drivers/Protect.lean (harness/protect_tie.py)."""
+    import common
+
+    r = PT.run(tier, rng, common.run_driver)
+    return {
+        "evaluations": r["lines"],
+        "nontrivial": r["keys"],
+        "violations": r["violations"][:20],
+        "disagreements": r["disagreements"][:20],
+        "info": {
+            "protect_tie_histories": r["cases"],
+            "protect_tie_lines_compared": r["lines"],
+            "protect_tie_disagreeing_histories": len(r["disagreements"]),
+            "protect_tie_histogram": dict(sorted(r["tags"].items())),
+        },
+    }
 
 
 def _extra_crash_points(tier, rng):
@@ -297,7 +403,10 @@ def _kf_keyedlist_restore_crash(case, violation):
         return False
     if not HS.known_restore_crash_shape(case["sc"]) or not violation:
         return False
-    allowed = ("'the argument KeyedList handed to the call'", "'receiver (entries kvals)'", "'ctor_arg kvals'")
+    allowed = (
+        "'the argument KeyedList handed to the call'", "'receiver (entries kvals)'", "'ctor_arg kvals'",
+        "'the pre-existing object `value` handed out by the preparer hooks'",  # (the KeyedList a preparer hook / transform hands in)
+    )
     for v in violation:
         if "cut at library line" not in v or " changed [" not in v:
             return False
@@ -310,7 +419,7 @@ def _kf_keyedlist_restore_crash(case, violation):
 KNOWN_MATCHERS = {"keyedlist_restore_crash": _kf_keyedlist_restore_crash}
 
 MANIFEST_ENTRY = {
-    "level_text": "Lean 4 proof, over a heap model with object identities (alloc/write effects, deepcopy with memo, do_not_copy, thaw window, callback fault plans, crash points between effects), that every helper called without _inplace=True writes only objects allocated during the call, hence leaves every pre-existing object (receiver graph, arguments, other instances, class-level defaults) unchanged for every class table, heap, operation, fault plan and effect prefix; tied to /repo on every run by executing generated histories on the real spec_classes and on the model and comparing outcome class, contents and alias pattern of all live objects after every step, plus a line-fault sweep of the real helpers against the model's crash states.",
-    "level_note": "Trusted: Lean kernel; axioms propext/Classical.choice/Quot.sound only; the hand-written heap model (Model/Heap.lean, Model/Inst.lean) and the correspondence harness; user callbacks pure. Class-level do_not_copy=True classes and frozen receivers are outside C01's quantifier (C07 covers frozen). The theorems are about the model; the per-run correspondence is what ties them to the code. KeyedList/KeyedSet, tuple-typed attributes, Alias / spec_property / property backed attributes and invalidated_by are outside the modelled grammar: real-code snapshot oracle over generated class families only (extra, harness/heap_shapes.py).",
+    "level_text": "Lean 4 proof, over a heap model with object identities (alloc/write effects, deepcopy with memo, do_not_copy, thaw window, callback fault plans, crash points between effects), that every helper called without _inplace=True writes only objects allocated during the call, hence leaves every pre-existing object (receiver graph, arguments, other instances, class-level defaults) unchanged for every class table, heap, operation, fault plan and effect prefix; tied to /repo on every run by executing generated histories on the real spec_classes and on the model and comparing outcome class, contents and alias pattern of all live objects after every step, plus a line-fault sweep of the real helpers against the model's crash states. Two further Lean models of the copying primitives: SpecVerif.Protect (protect_via_deepcopy / copy.deepcopy over tuples, named tuples, frozensets, sets, dicts, lists, plain objects, bytearrays, modules and uncopyable objects nested to any depth, with memo) with theorems that every mutable object of the copy is new, that the call fails iff the value holds an uncopyable object (a function of the value alone: no record of earlier calls) and that outcome and content do not depend on the identity supply; and SpecVerif.MutateValue (the mutate_safe discipline of mutate_value with abstract hooks that may return pre-existing objects) with exhaustively proved theorems that without inplace no pre-existing object -- the receiver's value, the argument, what a preparer or a transform handed out -- is ever edited; both tied to /repo per run (histories of protect calls with failing calls in between; all 9600 argument combinations of mutate_value).",
+    "level_note": "Trusted: Lean kernel; axioms propext/Classical.choice/Quot.sound only; the hand-written models (Model/Heap.lean, Model/Inst.lean, Model/Protect.lean, Model/MutateValue.lean) and the correspondence harness; user callbacks pure. Class-level do_not_copy=True classes and frozen receivers are outside C01's quantifier (C07 covers frozen). The theorems are about the model; the per-run correspondence is what ties them to the code. KeyedList/KeyedSet, tuple-typed attributes, Alias / spec_property / property backed attributes and invalidated_by are outside the modelled grammar: real-code snapshot oracle over generated class families only (extra, harness/heap_shapes.py).",
     "technique": "Lean 4 frame theorem (writes target fresh identities) over a hand-written heap model; differential correspondence + crash-point sweep against the real helpers",
 }
